@@ -11,7 +11,8 @@ ID = "C12"
 LEVEL = "exploration"
 SANITIZED = True      # the whole check re-executes itself under the ASan+UBSan build of cencoding.c / speedups.c
 RULE = ("The case streams of C03 (file plans from the specification-level encoder), C15 (nested plans), C10 (IDL-derived thrift "
-        "values, here also with multi-hundred-kB strings) and C11 (the exhaustive primitive lattice) are replayed inside processes "
+        "values, here also with multi-hundred-kB strings), C01 (frames x write options through the library's own writer and back) "
+        "and C11 (the exhaustive primitive lattice) are replayed inside processes "
         "that load an AddressSanitizer + UndefinedBehaviorSanitizer (shift-exponent, bounds, integer-divide-by-zero, null, "
         "unreachable, vla-bound) build of the generated C sources, in recover mode; after every case the per-process sanitizer "
         "log is inspected and any new report (kind, READ/WRITE, size, Cython function) is attributed to that case; a process "
@@ -27,7 +28,7 @@ ASSUMPTIONS = [
 ]
 MANIFEST = {
     "category": "exploration",
-    "technique": "sanitizer-instrumented property-based testing / fuzzing: generated and exhaustively enumerated inputs of C03/C10/C11/C15 replayed under an ASan+UBSan build with per-case report attribution",
+    "technique": "sanitizer-instrumented property-based testing / fuzzing: generated and exhaustively enumerated inputs of C01/C03/C10/C11/C15 replayed under an ASan+UBSan build with per-case report attribution",
     "text": "All generated inputs of the decoding, thrift and primitive-codec properties are executed against an address- and "
             "undefined-behaviour-sanitised build of the extension modules; any sanitizer report or abnormal process end is a violation.",
     "note": "Trusted: clang 14 ASan/UBSan runtime; the attribution of reports by log growth between cases. Findings inside "
@@ -49,7 +50,7 @@ def _src(name):
 
 
 def strategy(tier):
-    c03, c10, c15 = _src("C03"), _src("C10"), _src("C15")
+    c01, c03, c10, c15 = _src("C01"), _src("C03"), _src("C10"), _src("C15")
     # (structures serialising to more than the 500000-byte buffer overflow the heap - recorded finding -
     #  and kill the worker: they are exercised by the isolated probes only)
     return st.one_of(
@@ -57,6 +58,9 @@ def strategy(tier):
         c03.strategy(tier).map(lambda c: {"src": "C03", "case": c}),
         c15.strategy(tier).map(lambda c: {"src": "C15", "case": c}),
         c10.strategy("thorough").map(lambda c: {"src": "C10", "case": c}),
+        # the library's own writer and the reader's fast paths for its own files (byte-array packing, UTF-8
+        # encoding, level and dictionary-index encoders, time conversions) run natively too
+        c01.strategy(tier).map(lambda c: {"src": "C01", "case": c}),
     )
 
 
